@@ -10,8 +10,10 @@ BATCHES = {
         ("pay", 6, 90, {}),
         ("life", 8, 90, {}),
         ("auth", 8, 90, {}),
+        ("reward", 6, 80, {}),
     ],
     "thorough": [
+        ("reward", 60, 120, {}),
         ("pay", 60, 140, {}),
         ("life", 80, 140, {}),
         ("auth", 80, 140, {}),
